@@ -37,14 +37,14 @@ func (neverSyncing) IsSyncing() bool { return false }
 
 // EpochEval is one evaluation of ApplyNewEpoch observed on a replica.
 type EpochEval struct {
-	Replica   string
-	Restarts  int    // how often the replica had been restarted when it evaluated
-	Height    uint64
-	Ordinal   int    // n-th evaluation of this height by this ceremony object (0 = first pass)
-	CacheHit  bool   // the per-height cache was populated before the call
-	Failed    bool
-	Count     int
-	Dump      string // canonicalised TotalValidationResult
+	Replica  string
+	Restarts int // how often the replica had been restarted when it evaluated
+	Height   uint64
+	Ordinal  int  // n-th evaluation of this height by this ceremony object (0 = first pass)
+	CacheHit bool // the per-height cache was populated before the call
+	Failed   bool
+	Count    int
+	Dump     string // canonicalised TotalValidationResult
 }
 
 var (
